@@ -19,7 +19,7 @@ pub fn seeded_rng(salt: u64) -> bc_rand::SeededRandomNumberGenerator {
 
 // ------------------------------------------------------------------------------------ C04
 
-const N_OPS: usize = 24;
+const N_OPS: usize = 26;
 /// apply operation `k`; Ok(None) = operation not applicable to this state (documented error returned)
 fn apply(k: usize, e: &Envelope, step: u32) -> R<Option<Envelope>> {
     let fresh = |j: u32| 700 + step * 20 + j;
@@ -48,6 +48,26 @@ fn apply(k: usize, e: &Envelope, step: u32) -> R<Option<Envelope>> {
         20 => { op("add_recipient"); let (_, pk) = EncapsulationScheme::X25519.keypair_using(&mut seeded_rng(4)).unwrap(); Some(e.add_recipient(&pk, &key)) }
         21 => { op("add_type"); Some(e.add_type(leaf_text(fresh(12)))) }
         22 => { op("add_attachment"); Some(e.add_attachment(leaf_text(fresh(13)), "com.example", if step % 2 == 0 { Some("https://example.com/v1") } else { None })) }
+        23 => {
+            // an assertion already present, offered again in another obscuration state: present is decided by digest
+            op("add_assertion_envelope (obscured copy of a present assertion)");
+            let asr = e.assertions(); if asr.is_empty() { return Ok(None); }
+            let i = choice(asr.len());
+            let copy = match choice(2) { 0 => asr[i].elide(), _ => match asr[i].compress() { Ok(c) => c, Err(_) => return Ok(None) } };
+            let r = must!(e.add_assertion_envelope(copy), "add refused");
+            ensure!(r.assertions().len() == asr.len(), "assertion with a digest already present was added again", "{} -> {}", asr.len(), r.assertions().len());
+            Some(r)
+        }
+        24 => {
+            // elide an assertion in place, then offer the clear original again
+            op("add_assertion_envelope (clear copy of an elided assertion)");
+            let asr = e.assertions(); if asr.is_empty() { return Ok(None); }
+            let i = choice(asr.len());
+            let hidden = e.elide_removing_target(&asr[i]);
+            let r = must!(hidden.add_assertion_envelope(asr[i].clone()), "add refused");
+            ensure!(r.assertions().len() == asr.len(), "assertion with a digest already present was added again", "{} -> {}", asr.len(), r.assertions().len());
+            Some(r)
+        }
         _ => { op("encode->decode"); Some(must!(Envelope::try_from_cbor_data(bytes(e)), "decode of own encoding failed")) }
     })
 }
@@ -74,7 +94,7 @@ fn sequences_with(len: usize, reduced: bool) -> R {
     if let Err(m) = well_formed(&e) { return rt::viol("freshly built envelope not canonical", m); }
     let mut trace = vec![s.show()];
     // structural operations that re-sort / merge / collapse; the others are exercised at length 2
-    let core: [usize; 10] = [0, 1, 2, 4, 5, 6, 7, 9, 14, 16];
+    let core: [usize; 12] = [0, 1, 2, 4, 5, 6, 7, 9, 14, 16, 23, 24];
     for step in 0..len {
         let k = if reduced { core[choice(core.len())] } else { choice(N_OPS) };
         let before = bytes(&e);
@@ -321,13 +341,13 @@ pub fn prop_c04() -> Prop {
         id: "C04",
         scenarios: vec![
             Scenario { name: "sequences2", f: seq2, thorough_only: false,
-                bounds: "13 start envelopes (leaf, known value, assertion, wrapped, nodes with 1-3 assertions, decorated assertion, wrapped node subject, elided / compressed / encrypted children, assertion subject) x every sequence of 2 operations out of 24 (add, add duplicate, remove present/absent, replace assertion, replace subject by leaf / by node, wrap, unwrap, elide removing / revealing, compress(_subject), uncompress(_subject), encrypt_subject, decrypt_subject, add_salt_instance, add_assertion_salted, add_signature, add_recipient, add_type, add_attachment, encode->decode) with every argument choice x every digest order; after each step: structure well-formed, stored digests == recomputed, serialized bytes accepted by an independent grammar recogniser, assertion elements strictly ascending under the path condition, receiver unchanged",
+                bounds: "13 start envelopes (leaf, known value, assertion, wrapped, nodes with 1-3 assertions, decorated assertion, wrapped node subject, elided / compressed / encrypted children, assertion subject) x every sequence of 2 operations out of 26 (add, add duplicate, add an elided/compressed copy of a present assertion, add the clear copy of an elided assertion, remove present/absent, replace assertion, replace subject by leaf / by node, wrap, unwrap, elide removing / revealing, compress(_subject), uncompress(_subject), encrypt_subject, decrypt_subject, add_salt_instance, add_assertion_salted, add_signature, add_recipient, add_type, add_attachment, encode->decode) with every argument choice x every digest order; after each step: structure well-formed, stored digests == recomputed, serialized bytes accepted by an independent grammar recogniser, assertion elements strictly ascending under the path condition, receiver unchanged",
                 api: &["add_assertion", "add_assertion_envelope", "remove_assertion", "replace_assertion", "replace_subject", "wrap_envelope", "unwrap_envelope", "elide_removing_target", "elide_revealing_array", "compress", "compress_subject", "uncompress", "uncompress_subject", "encrypt_subject", "decrypt_subject", "add_salt_instance", "add_assertion_salted", "add_signature", "add_recipient", "add_type", "add_attachment", "try_from_cbor_data", "tagged_cbor"] },
             Scenario { name: "sequences3", f: seq3, thorough_only: false,
-                bounds: "same starts x every sequence of 3 operations out of the 10 structural ones (add, add duplicate, remove, replace assertion, replace subject by leaf / node, wrap, elide, uncompress_subject, decrypt_subject) x every digest order",
+                bounds: "same starts x every sequence of 3 operations out of the 12 structural ones (add, add duplicate, add obscured/clear copy of a present assertion, remove, replace assertion, replace subject by leaf / node, wrap, elide, uncompress_subject, decrypt_subject) x every digest order",
                 api: &["add_assertion", "add_assertion_envelope", "remove_assertion", "replace_assertion", "replace_subject", "wrap_envelope", "elide_removing_target", "uncompress_subject", "decrypt_subject"] },
-            Scenario { name: "sequences3_full", f: seq3_full, thorough_only: true, bounds: "every sequence of 3 operations out of all 24", api: &["(all of sequences2)"] },
-            Scenario { name: "sequences4", f: seq4, thorough_only: true, bounds: "every sequence of 4 operations out of the 10 structural ones", api: &["(all of sequences3)"] },
+            Scenario { name: "sequences3_full", f: seq3_full, thorough_only: true, bounds: "every sequence of 3 operations out of all 26", api: &["(all of sequences2)"] },
+            Scenario { name: "sequences4", f: seq4, thorough_only: true, bounds: "every sequence of 4 operations out of the 12 structural ones", api: &["(all of sequences3)"] },
         ],
         assumptions: COMMON_ASSUMPTIONS.to_vec(),
     }
